@@ -30,7 +30,8 @@ ASSUMPTIONS = ['sources within 0.5 deg of CRVAL so that the pixel-space model an
                'forced rms = 1e-3 min|peak|, bkg = 0', 'catalogue psf columns equal the image beam (otherwise the finder '
                'legitimately rescales the sizes)', 'for file input the truth is the catalogue as read back from the file']
 MIN_REACH = {'source_finder:SourceFinder.priorized_fit_islands': 1, 'source_finder:SourceFinder._refit_islands': 1}
-MIN_COUNTERS = {'outputs_judged': 100, 'cutout_width_odd': 10, 'cutout_width_even': 10, 'interference_pairs': 3,
+MIN_COUNTERS = {'runs_ratio1_with_catalogue_psf_differing_from_beam': 2, 'runs_with_repeated_labels_inside_an_island': 1,
+                'outputs_judged': 100, 'cutout_width_odd': 10, 'cutout_width_even': 10, 'interference_pairs': 3,
                 'runs_over_20_groups': 2, 'file_inputs': 3}
 BATCHES_PER_JOB = 4
 PRIORIZED = 64
@@ -136,6 +137,26 @@ def cases(seed, tier):
             c = gen_case(rng, n, tier)
             c['stage'] = 1 + (r + n) % 3
             out.append(c)
+    # ratio=1 means "take the catalogued shapes as they are": also when the catalogue's psf columns differ from the image beam
+    n_r1 = 6 if tier == 'quick' else 60
+    for i in range(n_r1):
+        c = gen_case(rng, int(rng.integers(2, 14)), tier)
+        c['ratio'] = 1
+        c['psf_columns'] = True
+        c['psf_scale'] = float(rng.choice([0.7, 0.85, 1.1, 1.4]))
+        c['form'] = str(rng.choice(['objects', 'csv']))
+        c['stage'] = 1 + i % 3
+        out.append(c)
+    # hand-made catalogues: the island number is a blend id and `source` is left at 0 (labels repeat inside an island),
+    # fitted with the catalogue's own grouping (regroup off)
+    n_dl = 6 if tier == 'quick' else 60
+    for i in range(n_dl):
+        c = gen_case(rng, int(rng.integers(4, 16)), tier)
+        c['dup_labels'] = True
+        c['regroup'] = False
+        c['form'] = 'objects'
+        c['stage'] = 1 + i % 3
+        out.append(c)
     n_int = 10 if tier == 'quick' else 100
     for i in range(n_int):
         c = gen_case(rng, int(rng.integers(4, 16)), tier, kind='interference')
@@ -181,7 +202,10 @@ def make_objects(case, z):
         o.a, o.b, o.pa = s['a'], s['b'], s['pa']
         o.int_flux = s['peak'] * s['a'] * s['b'] / (beam[0] * beam[1] * 3600 ** 2)
         (o.err_ra, o.err_dec, o.err_peak_flux, o.err_a, o.err_b, o.err_pa, o.err_int_flux) = s['errs']
-        o.psf_a, o.psf_b, o.psf_pa = beam[0] * 3600, beam[1] * 3600, beam[2]
+        ps = case.get('psf_scale', 1.0)
+        o.psf_a, o.psf_b, o.psf_pa = beam[0] * 3600 * ps, beam[1] * 3600 * ps, beam[2]
+        if case.get('dup_labels'):
+            o.source = 0
         o.local_rms, o.background = 1e-3, 0.0
         o.residual_mean = o.residual_std = 0.0
         o.flags = 0
@@ -424,6 +448,10 @@ def run(case):
             o.count('runs_over_20_groups')
         o.see('stage', case['stage'])
         o.see('form', case['form'])
+        if case.get('psf_scale', 1.0) != 1.0:
+            o.count('runs_ratio1_with_catalogue_psf_differing_from_beam')
+        if case.get('dup_labels') and len(set((q.island, q.source) for q in objs)) < len(objs):
+            o.count('runs_with_repeated_labels_inside_an_island')
         judge_outputs(o, ctx, case, outs, truth, z, acc)
         if case['kind'] == 'nopsf':
             # the same catalogue with psf columns must give the same answers
